@@ -69,6 +69,28 @@ def random_content(rng, endian, max_size=64, cstrings=True, aligned_len=None):
     return Content(endian, data, text, ptr, lab, cs)
 
 
+def coincidence_contents():
+    """Archives in which the value stored in a string cell (text_start + text offset, counted from the data start) equals the NAME
+    OFFSET of a label (counted from the text start), and the neighbours one byte off: d data bytes, one string cell whose string is
+    also the first label's name (text offset 0), extra internal pointers, two or three labels; text_start = d + 4*pointers + 8*labels,
+    so a first name of text_start - 1 bytes puts the second label's name at offset text_start (seeded changes C01-5 / C02-5 memoised
+    decoded text by offset alone, across the two offset spaces)."""
+    out = []
+    for e in "LB":
+        for d in (8, 12, 16, 24):
+            for extra_ptrs in (0, 1, 2):
+                for nlab in (2, 3):
+                    tstart = d + 4 * (1 + extra_ptrs) + 8 * nlab
+                    for delta in (-1, 0, 1):
+                        n1 = b"A" * (tstart - 1 + delta)          # sorts first by name (big-endian order) and by address
+                        ptr = {8 + 4 * k: 0 for k in range(extra_ptrs)}
+                        lab = {0: [n1], 4: [b"Second"]}
+                        if nlab == 3:
+                            lab[d] = [b"Third"]
+                        out.append(Content(e, bytes(d), {4: n1}, ptr, lab, []))
+    return out
+
+
 def build_ops(rng, c, shuffle=True, noise=True):
     """an API history that builds content c; with `noise` some annotations are first written with other values,
     deleted and rewritten, so different histories reach the same content"""
